@@ -6,7 +6,18 @@ from ..enum import shapes, values
 from ..gen import walk
 from ..model import codec
 
-LADDER = [((0, 1, 2), (0, 1, 3)), ((0, 1, 2), (0, 2)), ((0, 2), (0, 2)), ((0, 1), (0, 1)), ((0, 1), (1,)), ((1,), (1,))]
+# (group sizes per depth, data lengths per depth); the last entry of a list repeats for deeper levels.  Rungs are ordered
+# so that a top-level group of two entries survives down to very small caps (stride / subrange bugs need n >= 2).
+LADDER = [
+    ([(0, 1, 2)], [(0, 1, 3)]),
+    ([(0, 1, 2), (0, 1, 2), (0, 1)], [(0, 1, 3), (0, 2), (1,)]),
+    ([(0, 1, 2), (0, 2), (1,)], [(0, 2), (0, 2), (1,)]),
+    ([(0, 1, 2), (0, 1), (1,)], [(0, 2), (1,), (1,)]),
+    ([(0, 2), (2,), (1,)], [(0, 2), (1,), (1,)]),
+    ([(0, 2), (1,), (1,)], [(0, 2), (1,), (1,)]),
+    ([(0, 2), (1,), (1,)], [(1,), (1,), (1,)]),
+    ([(2,), (1,), (1,)], [(1,), (1,), (1,)]),
+]
 
 
 def adaptive_bounds(rm, cap):
@@ -56,8 +67,7 @@ def masks(labels, kmax=4):
 
 def stale_background(schema, rm, cap_len, seed=0x33):
     """a *valid image of the same message* with different sizes/values, cut or padded to cap_len"""
-    gs, dl = (1, 2), (3, 1)
-    shape = next(values.size_vectors(rm.level, gs[:1], dl[:1]))
+    shape = next(values.size_vectors(rm.level, (1,), (3,)))
     inst = values.fill(rm.level, shape, values.ByteGen(seed))
     img, _ = codec.encode(schema, rm, inst, fill=0x5A)
     img = (img + bytes([0x5A]) * cap_len)[:cap_len]
@@ -66,7 +76,7 @@ def stale_background(schema, rm, cap_len, seed=0x33):
 
 # ---------------------------------------------------------------- plans (run inside worker processes)
 
-def plan_c01(schema, rm, mi, desc, lines, meta, res, cap=24, modes=walk.MODES, seeds=(0x10, 0x81)):
+def plan_c01(schema, rm, mi, desc, lines, meta, res, cap=24, modes=walk.MODES, seeds=(0x10, 0x81), trials=False):
     gs, dl = adaptive_bounds(rm, cap)
     labels = leaf_labels(rm)
     shapes_ = list(values.size_vectors(rm.level, gs, dl))
@@ -87,6 +97,7 @@ def plan_c01(schema, rm, mi, desc, lines, meta, res, cap=24, modes=walk.MODES, s
                     how += 1
                     sc = walk.Script(schema, rm, placed, inst, write_mask=lambda l, mk=mk: l in mk,
                                      data_how=lambda l, h=how: h % 4, group_how=lambda l, h=how: (h // 4) % 2)
+                    sc.trials = trials
                     toks = sc.build()
                     for mode in modes:
                         cid = "e%d" % len(meta)
@@ -182,6 +193,35 @@ def plan_dump_kinds(schema, rm, mi, desc, lines, meta, res, cap=8, modes=walk.MO
                              "image": img.hex()}
                 res.counters["values"] = res.counters.get("values", 0) + exp.count("=")
             res.distinct.add((desc, values.shape_str(shape), j))
+
+
+def plan_visit(schema, rm, mi, desc, lines, meta, res, cap=6, boundary=False, nvalues=6, seeds=(0x10,), ext=None):
+    from ..gen import visitx
+    from ..model import layout
+    gs, dl = adaptive_bounds(rm, cap)
+    vx = visitx.VisitExpect(schema, rm, layout.Resolver(schema))
+    res.counters["shapes"] = res.counters.get("shapes", 0) + 1
+    blf = codec.default_bl if not ext else (lambda path, rl: rl.block_length + ext)
+    for shape in values.size_vectors(rm.level, gs, dl):
+        insts = ([values.fill_boundary(rm.level, shape, j, values.ByteGen(0x21 + j)) for j in range(nvalues)] if boundary
+                 else [values.fill(rm.level, shape, values.ByteGen(sd)) for sd in seeds])
+        for inst in insts:
+            img, placed = codec.encode(schema, rm, inst, blf=blf, fill=0xEE)
+            full = vx.message_log(placed, inst)
+            jobs = [(0, 0, full, placed.end), (0, 1, full, -2)]
+            for gi in range(len(placed.groups)):
+                glog, gend = vx.group_log(placed, inst, gi)
+                jobs.append((gi + 1, 0, glog, gend))
+            for sel, how, log, cur in jobs:
+                cid = "v%d" % len(meta)
+                lines.append("V %s %d %d %d %s %d %d" % (cid, mi, sel, how, img.hex() if img else "-", cur, log.count("\n")))
+                if log:
+                    lines.append(log.rstrip("\n"))
+                meta[cid] = {"message": rm.name, "desc": desc, "mode": "visit sel=%d how=%d" % (sel, how), "shape": values.shape_str(shape),
+                             "image": img.hex()}
+            res.distinct.add((desc, values.shape_str(shape)))
+    if len(res.samples) < 2:
+        res.samples.append({"message": desc, "expected_log_head": full.splitlines()[:8]})
 
 
 def choice_strings(maxlen):
